@@ -817,6 +817,14 @@ def check_icon(ctx, F, cfg, fn):
     if inner_error_only(sym, paths, D):
         return False
     oks = [p for p in paths if p.result is not None and p.result[0] == "ctor" and p.result[1] == S.OK]
+    # "a relying-party icon of any length is accepted and discarded": nothing in the decoder (or a helper expanded into it) may
+    # index, slice, do unchecked arithmetic or call a contract-panicking API on the text
+    bodies = [fn] + [F.fn(q) for q in sym.inlined if F.fn(q) is not None]
+    risky = [(k, x) for g in bodies for k, x in obligations(g) if k != "diverge" and (x.get("pv") or "user") == "user"]
+    ctx.oblige("C13|icon|no-panic", not risky, "the decoder of the discarded relying-party icon contains a panic-capable construct (%s): a text of some shape aborts decoding instead of being accepted and discarded" %
+               ", ".join(sorted({k for k, _ in risky})), cfg=cfg, where=H.line(risky[0][1]) if risky else fn["sp"], nontrivial=False)
+    if risky:
+        return True      # reported above with its own message
     return len(oks) == 1 and sym.lookup(oks[0], D.term) == S.OK and oks[0].result[2][0] == ("ctor", "webauthn::Icon", ()) and not any(p.done and p.done[0] == "panic" for p in paths) \
         and all(len([e for e in p.effects]) == 1 for p in paths)
 
